@@ -99,3 +99,17 @@ Theorem held_handle_resurrects_reverted_write :
   | Panic => False
   end.
 Proof. vm_compute. reflexivity. Qed.
+
+(** AccountState.PutState stores the handle's newState pointer: from then on Add/SubBalance
+    through the handle writes into the buffered entry without another PutState, and a revert
+    to a snapshot taken in between does not undo it (known finding C12:mutate-after-put; the
+    executor puts a handle once, at the end of the transaction). *)
+Theorem mutate_after_put_not_reverted :
+  match run (sdb_new [] [] []) [OAGet 1; OAAdd 0 5; OAPut 0; OSnap]%N with
+  | Ok d0 => match run d0 [OAAdd 0 3; ORollback 0]%N with
+             | Ok d1 => get_state d0 1%N = Ok (Some (5%N, [])) /\ get_state d1 1%N = Ok (Some (8%N, []))
+             | Panic => False
+             end
+  | Panic => False
+  end.
+Proof. vm_compute. split; reflexivity. Qed.
